@@ -41,6 +41,16 @@ func main() {
 		*tier = "quick"
 	}
 	seed, _ := strconv.Atoi(os.Getenv("VERIF_SEED"))
+	if strings.HasPrefix(*dump, "paths:") {
+		p, err := core.Load(core.Config{Name: "default", Dir: *dir})
+		if err != nil {
+			fmt.Println(err)
+			os.Exit(2)
+		}
+		fp := strings.SplitN(strings.TrimPrefix(*dump, "paths:"), ":", 2)
+		props.DebugPaths(&props.Run{P: p, E: core.NewEngine(p), R: core.NewReport("dbg", "quick", 0)}, fp[0], fp[1])
+		return
+	}
 	if strings.HasPrefix(*dump, "appends:") {
 		p, err := core.Load(core.Config{Name: "default", Dir: *dir})
 		if err != nil {
